@@ -82,8 +82,9 @@ func CreateAbsoluteURL(url string, base *nurl.URL) string {
 
 	// In HTML the leading and trailing white space of an URL attribute
 	// is not part of the URL.
-	if trimmed := strings.Trim(url, " \t\n\f\r"); trimmed != "" {
-		url = trimmed
+	url = strings.Trim(url, " \t\n\f\r")
+	if url == "" {
+		return url
 	}
 
 	// If it is hash tag, return as it is
